@@ -405,6 +405,9 @@ ASMJIT_FAVOR_SIZE Error init_func_detail(FuncDetail& func, const FuncSignature& 
             }
             else {
               uint32_t size = Support::max<uint32_t>(TypeUtils::size_of(type_id), register_size);
+              if (size >= 16) {
+                stack_offset = Support::align_up(stack_offset, size);
+              }
               arg.assign_stack_offset(int32_t(stack_offset));
               stack_offset += size;
             }
